@@ -115,11 +115,12 @@ def random_centers(rng, num_wann, mode="random"):
     raise ValueError(mode)
 
 
-def make_system(lattice, iRvec, mats, centers_red, periodic=(True, True, True), spinor=None, name="verif"):
+def make_system(lattice, iRvec, mats, centers_red, periodic=(True, True, True), spinor=None, name="verif",
+                force_internal_terms_only=False):
     """System_R from explicit data, through the public setters"""
     from wannierberri.system.system_R import System_R
     from wannierberri.fourier.rvectors import Rvectors
-    s = System_R(silent=True, periodic=periodic, name=name, spinor=spinor)
+    s = System_R(silent=True, periodic=periodic, name=name, spinor=spinor, force_internal_terms_only=force_internal_terms_only)
     s.set_real_lattice(np.array(lattice, dtype=float))
     s.num_wann = mats["Ham"].shape[1]
     s.set_wannier_centers(wannier_centers_red=np.array(centers_red, dtype=float))
